@@ -118,7 +118,10 @@ def penalty_cases(draw, tier):
             'k': draw(st.sampled_from([None, None, 1, 2.5, 1000.0, 1e-3, 7])),
             'h': draw(st.sampled_from([None, None, 2, 5, 10, 1.5])),
             'niter': draw(st.sampled_from([0, 0, 1, 2])) if join is None else 0,
-            'join': join, 'points': pts}
+            'join': join, 'points': pts,
+            # between compiling this text and evaluating it, the same text is compiled again with other values for the
+            # same local names and other tol/rel (and evaluated): earlier compiled functions must not notice
+            'interfere': draw(st.booleans())}
 
 
 @st.composite
@@ -215,6 +218,22 @@ def _apply_hit(l, mode, x, locs, tol, rel):
     return True
 
 
+def _interfere(case, texts, n):
+    """compile (and evaluate once) the same texts with different values for the same local names and a coarse
+    tol/rel; whatever it returns is discarded"""
+    from mystic.symbolic import generate_conditions, generate_penalty
+    locs2 = {}
+    for k_, v_ in (case.get('locals') or {}).items():
+        locs2[k_] = (v_ * -3.0 + 7.5) if isinstance(v_, (int, float)) else v_
+    kw2 = sg.parser_kwargs(case['scheme'], n, case['pass_nvars'], locs2, 0.5, 0.25)
+    try:
+        other = generate_conditions(tuple(texts) if len(texts) > 1 else texts[0], **kw2)
+        p2 = generate_penalty(other)
+        p2([0.5] * n)
+    except Exception:
+        pass
+
+
 # ------------------------------------------------------------------------------ conditions + penalty
 def run_penalty(case, ctx):
     from vp import lab
@@ -285,6 +304,9 @@ def run_penalty(case, ctx):
     niter = case['niter']
     for _ in range(niter):
         pen.iter()
+    if case.get('interfere'):
+        _interfere(case, texts, n)
+        ctx.label('interfering-compile')
     # labels
     ops = set()
     for l in lines:
